@@ -15,6 +15,7 @@ configuration, and EVERY list of chunks whose concatenation is the encoded body
 -/
 import BaizeVerif.Lemmas.MultipartHelper
 import BaizeVerif.Lemmas.MultipartHeaders
+import BaizeVerif.Lemmas.Utf8
 
 namespace Baize.Multipart
 
@@ -128,14 +129,27 @@ def NameOK (n : Bytes) : Prop := QuoteFree n ∧ ∀ x ∈ n, isLB x = false
 def renderedHeaders (N : Bytes) (F : Option Bytes) (extra : List (Bytes × Bytes)) : List (List Nat × List Nat) :=
   (cdName, cdValue N F) :: extra.map fun kv => (lowerAscii kv.1, kv.2)
 
+/-- the extra header lines `k: v` as bytes (latin-1: bytes = code points) -/
+def extraLines (extra : List (Bytes × Bytes)) : List HLine :=
+  extra.map fun kv => ⟨kv.1 ++ 58 :: 32 :: kv.2, kv.1, kv.2⟩
+
+/-- the header list reported for header lines given as `HLine`s -/
+def headersOf (N : List Nat) (F : Option (List Nat)) (extra : List HLine) : List (List Nat × List Nat) :=
+  (cdName, cdValue N F) :: extra.map fun l => (lowerAscii l.key, l.value)
+
+theorem headersOf_extraLines (N : Bytes) (F : Option Bytes) (extra : List (Bytes × Bytes)) :
+    headersOf N F (extraLines extra) = renderedHeaders N F extra := by
+  simp [headersOf, extraLines, renderedHeaders, List.map_map, Function.comp_def]
+
 /-- a part as an encoder writes it: `Content-Disposition: form-data; name="N"[; filename="F"]`
-then the extra header lines; it denotes a field (no filename) or a file -/
+then the extra header lines; it denotes a field (no filename) or a file with the
+headers `renderedHeaders N F extra` (= `headersOf …`, see `headersOf_extraLines`) -/
 def renderedPart (N : Bytes) (F : Option Bytes) (extra : List (Bytes × Bytes)) (content : Bytes) : Part :=
-  { hdr := joinLines ((cdHeaderName ++ 58 :: 32 :: cdValue N F) :: extra.map fun kv => kv.1 ++ 58 :: 32 :: kv.2),
+  { hdr := joinLines ((cdHeaderName ++ 58 :: 32 :: cdValue N F) :: (extraLines extra).map (·.bytes)),
     content := content,
     ev := match F with
-      | none => .field (some N) (renderedHeaders N F extra)
-      | some f => .file (some N) f (renderedHeaders N F extra) }
+      | none => .field (some N) (headersOf N F (extraLines extra))
+      | some f => .file (some N) f (headersOf N F (extraLines extra)) }
 
 private def AllNoLB (l : Bytes) : Prop := ∀ x ∈ l, isLB x = false
 
@@ -199,7 +213,33 @@ private theorem cd_line_ok (N : Bytes) (F : Option Bytes) (hN : NameOK N) (hF : 
     rw [stripBy_cons_space isPySpace 32 _ (by decide), hm]
     exact stripBy_ends isPySpace 102 34 m (by decide) (by decide)
 
-/-- **C01.5 — the header layer is exact.**  A part written by an encoder is a
+/-- core of C01.5, for any charset: a block of well-formed lines is a well-formed part -/
+private theorem part_ok_of_lines (b : Bytes) (cs : Charset) (N : List Nat) (F : Option (List Nat))
+    (cdBytes : Bytes) (extra : List HLine) (content : Bytes) (hN : QuoteFree N)
+    (hF : ∀ f, F = some f → QuoteFree f)
+    (hcd : HLineOK cs ⟨cdBytes, cdHeaderName, cdValue N F⟩) (hextra : ∀ l ∈ extra, HLineOK cs l)
+    (hkeys : (cdName :: extra.map (fun l => lowerAscii l.key)).Nodup)
+    (hfree : Free (marker b) content) :
+    PartOK b cs { hdr := joinLines (cdBytes :: extra.map (·.bytes)), content := content,
+                  ev := match F with
+                    | none => .field (some N) (headersOf N F extra)
+                    | some f => .file (some N) f (headersOf N F extra) } := by
+  refine ⟨?_, hfree, ?_, ?_⟩
+  · apply hdrOK_joinLines
+    intro x hx
+    rw [List.mem_cons] at hx
+    rcases hx with rfl | hx
+    · exact hcd.bytesOK
+    · rw [List.mem_map] at hx
+      obtain ⟨l, hl, rfl⟩ := hx
+      exact (hextra l hl).bytesOK
+  · show headerEvent cs (joinLines _) = _
+    rw [headerEvent_rendered cs N F cdBytes extra hN hF hcd hextra hkeys]
+    cases F <;> rfl
+  · show IsPartEv _
+    cases F <;> exact trivial
+
+/-- **C01.5 — the header layer is exact (latin-1).**  A part written by an encoder is a
 well-formed part (`PartOK`) that denotes exactly its name, filename and headers. -/
 theorem rendered_part_ok (b : Bytes) (N : Bytes) (F : Option Bytes) (extra : List (Bytes × Bytes))
     (content : Bytes) (hN : NameOK N) (hF : ∀ f, F = some f → NameOK f)
@@ -207,38 +247,160 @@ theorem rendered_part_ok (b : Bytes) (N : Bytes) (F : Option Bytes) (extra : Lis
     (hkeys : (cdName :: extra.map (fun kv => lowerAscii kv.1)).Nodup)
     (hfree : Free (marker b) content) :
     PartOK b .latin1 (renderedPart N F extra content) := by
-  let lines : List HLine := extra.map fun kv => ⟨kv.1 ++ 58 :: 32 :: kv.2, kv.1, kv.2⟩
-  have hlines : ∀ l ∈ lines, HLineOK .latin1 l := by
+  have hlines : ∀ l ∈ extraLines extra, HLineOK .latin1 l := by
     intro l hl
-    simp only [lines, List.mem_map] at hl
+    simp only [extraLines, List.mem_map] at hl
     obtain ⟨kv, hkv, rfl⟩ := hl
     have h := hextra kv hkv
     exact ⟨h.bytesOK, rfl, h.noColon, h.keyStrip, h.valueStrip⟩
-  have hbytes : (extra.map fun kv => kv.1 ++ 58 :: 32 :: kv.2) = lines.map (·.bytes) := by
-    simp [lines, List.map_map, Function.comp_def]
-  have hcd := cd_line_ok N F hN hF
-  refine ⟨?_, hfree, ?_, ?_⟩
-  · -- HdrOK
-    show HdrOK (joinLines _)
-    apply hdrOK_joinLines
-    intro x hx
-    rw [List.mem_cons] at hx
-    rcases hx with rfl | hx
-    · exact hcd.bytesOK
-    · rw [hbytes, List.mem_map] at hx
-      obtain ⟨l, hl, rfl⟩ := hx
-      exact (hlines l hl).bytesOK
-  · -- denotes
-    show headerEvent .latin1 (joinLines _) = _
-    rw [hbytes]
-    have := headerEvent_rendered .latin1 N F _ lines hN.1 (fun f hf => (hF f hf).1) hcd hlines
-      (by simpa [lines, List.map_map, Function.comp_def] using hkeys)
-    rw [this]
-    simp only [renderedPart, renderedHeaders, lines, List.map_map, Function.comp_def]
-    cases F <;> rfl
-  · show IsPartEv (renderedPart N F extra content).ev
-    simp only [renderedPart]
-    cases F <;> exact trivial
+  exact part_ok_of_lines b .latin1 N F _ (extraLines extra) content hN.1 (fun f hf => (hF f hf).1)
+    (cd_line_ok N F hN hF) hlines (by simpa [extraLines, List.map_map, Function.comp_def] using hkeys) hfree
+
+/-! #### the same for utf-8 (the default charset): names, filenames and header
+values are texts (code points), the block holds their UTF-8 encoding -/
+
+/-- a header line as text -/
+structure LineTextOK (t : List Nat) : Prop where
+  shape : ∃ a m z, t = a :: m ++ [z] ∧ isAsciiSpace a = false ∧ isAsciiSpace z = false
+  noLB : ∀ x ∈ t, isLB x = false
+  scalar : ∀ x ∈ t, Scalar x
+
+private theorem isAsciiSpace_of_big {x : Nat} (h : 128 ≤ x) : isAsciiSpace x = false := by
+  simp [isAsciiSpace]; omega
+
+private theorem isLB_of_big {x : Nat} (h : 128 ≤ x) : isLB x = false := by
+  simp [isLB]; omega
+
+theorem lineBytesOK_encode (t : List Nat) (h : LineTextOK t) : LineBytesOK (encodeUtf8 t) := by
+  obtain ⟨⟨a, m, z, ht, ha, hz⟩, hnl, _⟩ := h
+  constructor
+  · obtain ⟨a', m1, he1, hc1⟩ := encodeCp_head a
+    obtain ⟨m2, z', he2, hc2⟩ := encodeCp_last z
+    refine ⟨a', m1 ++ encodeUtf8 m ++ m2, z', ?_, ?_, ?_⟩
+    · rw [ht]; simp [encodeUtf8, List.flatMap_append, he1, he2]
+    · rcases hc1 with ⟨_, rfl⟩ | hb
+      · exact ha
+      · exact isAsciiSpace_of_big hb
+    · rcases hc2 with ⟨_, rfl⟩ | hb
+      · exact hz
+      · exact isAsciiSpace_of_big hb
+  · intro x hx
+    simp only [encodeUtf8, List.mem_flatMap] at hx
+    obtain ⟨c, hc, hxc⟩ := hx
+    rcases mem_encodeCp hxc with ⟨_, rfl⟩ | hb
+    · exact hnl x hc
+    · exact isLB_of_big hb
+
+/-- name / filename as text: no quote, no backslash, no line break; Unicode scalar values -/
+def NameOKU (n : List Nat) : Prop := NameOK n ∧ ∀ x ∈ n, Scalar x
+
+/-- a further header line as text -/
+structure ExtraOKU (k v : List Nat) : Prop where
+  textOK : LineTextOK (k ++ 58 :: 32 :: v)
+  noColon : ∀ x ∈ k, x ≠ 58
+  keyStrip : stripBy isPySpace k = k
+  valueStrip : stripBy isPySpace (32 :: v) = v
+
+/-- the extra header lines, encoded -/
+def extraLinesU (extra : List (List Nat × List Nat)) : List HLine :=
+  extra.map fun kv => ⟨encodeUtf8 (kv.1 ++ 58 :: 32 :: kv.2), kv.1, kv.2⟩
+
+theorem headersOf_extraLinesU (N : List Nat) (F : Option (List Nat)) (extra : List (List Nat × List Nat)) :
+    headersOf N F (extraLinesU extra) = renderedHeaders N F extra := by
+  simp [headersOf, extraLinesU, renderedHeaders, List.map_map, Function.comp_def]
+
+/-- a part as an encoder writes it with charset utf-8 -/
+def renderedPartU (N : List Nat) (F : Option (List Nat)) (extra : List (List Nat × List Nat)) (content : Bytes) :
+    Part :=
+  { hdr := joinLines (encodeUtf8 (cdHeaderName ++ 58 :: 32 :: cdValue N F) :: (extraLinesU extra).map (·.bytes)),
+    content := content,
+    ev := match F with
+      | none => .field (some N) (headersOf N F (extraLinesU extra))
+      | some f => .file (some N) f (headersOf N F (extraLinesU extra)) }
+
+private def AllScalar (l : List Nat) : Prop := ∀ x ∈ l, Scalar x
+
+private theorem allScalar_append {a b : List Nat} (ha : AllScalar a) (hb : AllScalar b) : AllScalar (a ++ b) := by
+  intro x hx
+  rw [List.mem_append] at hx
+  rcases hx with hx | hx
+  · exact ha x hx
+  · exact hb x hx
+
+private theorem allScalar_cons {c : Nat} {l : List Nat} (hc : c < 128) (hl : AllScalar l) : AllScalar (c :: l) := by
+  intro x hx
+  rw [List.mem_cons] at hx
+  rcases hx with rfl | hx
+  · exact ⟨by omega, by omega⟩
+  · exact hl x hx
+
+private theorem allScalar_ascii {l : List Nat} (h : ∀ x ∈ l, x < 128) : AllScalar l :=
+  fun x hx => ⟨by have := h x hx; omega, by have := h x hx; omega⟩
+
+private theorem cdValue_scalar (N : List Nat) (F : Option (List Nat)) (hN : AllScalar N)
+    (hF : ∀ f, F = some f → AllScalar f) : AllScalar (cdHeaderName ++ 58 :: 32 :: cdValue N F) := by
+  have hcd : AllScalar cdHeaderName := allScalar_ascii (by decide)
+  have hfd : AllScalar fdBytes := allScalar_ascii (by decide)
+  have hnk : AllScalar nameKey := allScalar_ascii (by decide)
+  have hfk : AllScalar filenameKey := allScalar_ascii (by decide)
+  have hq : AllScalar [34] := allScalar_ascii (by decide)
+  refine allScalar_append hcd (allScalar_cons (by decide) (allScalar_cons (by decide) ?_))
+  cases F with
+  | none =>
+    exact allScalar_append hfd (allScalar_cons (by decide) (allScalar_cons (by decide)
+      (allScalar_append (allScalar_append hnk (allScalar_cons (by decide) (allScalar_cons (by decide) hN))) hq)))
+  | some f =>
+    have hf := hF f rfl
+    exact allScalar_append hfd (allScalar_cons (by decide) (allScalar_cons (by decide)
+      (allScalar_append (allScalar_append hnk (allScalar_cons (by decide) (allScalar_cons (by decide) hN)))
+        (allScalar_cons (by decide) (allScalar_cons (by decide) (allScalar_cons (by decide)
+          (allScalar_append (allScalar_append hfk (allScalar_cons (by decide) (allScalar_cons (by decide) hf))) hq)))))))
+
+private theorem cd_line_ok_utf8 (N : List Nat) (F : Option (List Nat)) (hN : NameOKU N)
+    (hF : ∀ f, F = some f → NameOKU f) :
+    HLineOK .utf8 ⟨encodeUtf8 (cdHeaderName ++ 58 :: 32 :: cdValue N F), cdHeaderName, cdValue N F⟩ := by
+  obtain ⟨m, hm⟩ := cdValue_ends N F
+  have hcdn : AllNoLB cdHeaderName := by unfold AllNoLB; decide
+  have hnl : AllNoLB (cdHeaderName ++ 58 :: 32 :: cdValue N F) :=
+    allNoLB_append hcdn (allNoLB_cons (by decide) (allNoLB_cons (by decide)
+      (cdValue_noLB N F hN.1 (fun f hf => (hF f hf).1))))
+  have hshape : cdHeaderName ++ 58 :: 32 :: cdValue N F =
+      67 :: ([111,110,116,101,110,116,45,68,105,115,112,111,115,105,116,105,111,110] ++ 58 :: 32 :: 102 :: m) ++ [34] := by
+    rw [hm]; simp [cdHeaderName]
+  have hsc := cdValue_scalar N F hN.2 (fun f hf => (hF f hf).2)
+  have htext : LineTextOK (cdHeaderName ++ 58 :: 32 :: cdValue N F) :=
+    ⟨⟨67, _, 34, hshape, by decide, by decide⟩, hnl, hsc⟩
+  refine ⟨lineBytesOK_encode _ htext, safeDecode_encodeUtf8 _ hsc, ?_, ?_, ?_⟩
+  · show ∀ x ∈ cdHeaderName, x ≠ 58
+    decide
+  · show stripBy isPySpace cdHeaderName = cdHeaderName
+    decide
+  · show stripBy isPySpace (32 :: cdValue N F) = cdValue N F
+    rw [stripBy_cons_space isPySpace 32 _ (by decide), hm]
+    exact stripBy_ends isPySpace 102 34 m (by decide) (by decide)
+
+/-- **C01.5 — the header layer is exact (utf-8).** -/
+theorem rendered_part_ok_utf8 (b : Bytes) (N : List Nat) (F : Option (List Nat))
+    (extra : List (List Nat × List Nat)) (content : Bytes) (hN : NameOKU N) (hF : ∀ f, F = some f → NameOKU f)
+    (hextra : ∀ kv ∈ extra, ExtraOKU kv.1 kv.2)
+    (hkeys : (cdName :: extra.map (fun kv => lowerAscii kv.1)).Nodup)
+    (hfree : Free (marker b) content) :
+    PartOK b .utf8 (renderedPartU N F extra content) := by
+  have hlines : ∀ l ∈ extraLinesU extra, HLineOK .utf8 l := by
+    intro l hl
+    simp only [extraLinesU, List.mem_map] at hl
+    obtain ⟨kv, hkv, rfl⟩ := hl
+    have h := hextra kv hkv
+    exact ⟨lineBytesOK_encode _ h.textOK, safeDecode_encodeUtf8 _ h.textOK.scalar, h.noColon, h.keyStrip,
+      h.valueStrip⟩
+  exact part_ok_of_lines b .utf8 N F _ (extraLinesU extra) content hN.1.1 (fun f hf => (hF f hf).1.1)
+    (cd_line_ok_utf8 N F hN hF) hlines (by simpa [extraLinesU, List.map_map, Function.comp_def] using hkeys) hfree
+
+/-- a utf-8 text field is reported with its text -/
+theorem itemOf_rendered_utf8_field (N : List Nat) (extra : List (List Nat × List Nat)) (text : List Nat)
+    (h : ∀ c ∈ text, Scalar c) :
+    itemOf .utf8 (renderedPartU N none extra (encodeUtf8 text)) = some (Item.field (some N) text) := by
+  simp [itemOf, renderedPartU, safeDecode_encodeUtf8 text h]
 
 /-- what a rendered part contributes to the result: for a field its name and its
 text (latin-1: the content itself), for a file name, filename, headers and content -/
@@ -247,7 +409,46 @@ theorem itemOf_rendered (N : Bytes) (F : Option Bytes) (extra : List (Bytes × B
       some (match F with
         | none => Item.field (some N) content
         | some f => Item.file (some N) f (renderedHeaders N F extra) content) := by
-  cases F <;> rfl
+  cases F with
+  | none => rfl
+  | some f => simp [itemOf, renderedPart, headersOf_extraLines]
+
+/-- the description of one part of a form as the property speaks of it: field name,
+optional filename, further headers, content bytes -/
+structure PartSpec where
+  name : List Nat
+  filename : Option (List Nat)
+  extra : List (List Nat × List Nat)
+  content : Bytes
+
+/-- well-formedness of a part description for boundary `b` (utf-8) -/
+structure PartSpecOK (b : Bytes) (p : PartSpec) : Prop where
+  name : NameOKU p.name
+  filename : ∀ f, p.filename = some f → NameOKU f
+  extra : ∀ kv ∈ p.extra, ExtraOKU kv.1 kv.2
+  keys : (cdName :: p.extra.map (fun kv => lowerAscii kv.1)).Nodup
+  free : Free (marker b) p.content
+
+/-- **C01.6 — the property in its own words (utf-8).**  For every boundary
+without CR/LF, every preamble free of `--boundary`, every list of part
+descriptions (names/filenames without quote, backslash, line break; arbitrary
+content bytes free of `--boundary`), every epilogue, every limit configuration
+and EVERY chunking of the encoded body, the helper returns the expected result:
+the items of exactly these parts, in order (or 413 when a limit is exceeded). -/
+theorem rendered_form_exact (b pre epi : Bytes) (specs : List PartSpec) (cfg : Cfg)
+    (hb : NoLB (marker b)) (hpre : Free (marker b) pre) (hspecs : ∀ p ∈ specs, PartSpecOK b p)
+    (chunks : List Bytes)
+    (h : chunks.flatten =
+      encode b pre (specs.map fun p => renderedPartU p.name p.filename p.extra p.content) epi) :
+    parseStream b cfg .utf8 chunks =
+      expected cfg .utf8 (specs.map fun p => renderedPartU p.name p.filename p.extra p.content) := by
+  apply parseStream_exact b pre epi _ cfg .utf8 _ chunks h
+  refine ⟨hb, hpre, ?_⟩
+  intro part hpart
+  rw [List.mem_map] at hpart
+  obtain ⟨p, hp, rfl⟩ := hpart
+  have hok := hspecs p hp
+  exact rendered_part_ok_utf8 b p.name p.filename p.extra p.content hok.name hok.filename hok.extra hok.keys hok.free
 
 /-! ### Non-vacuity: a concrete form meets the hypotheses, and the theorem's
 conclusion is what the model computes on a nasty chunking -/
@@ -338,5 +539,34 @@ example : parseStream bd {} .latin1 ((encode bd [112] exParts [13, 10]).map fun 
              ([99,111,110,116,101,110,116,45,116,121,112,101], [116,47,112])]
             [10, 13, 45, 13, 10, 45] ] := by
   decide +kernel
+
+/-- a part description with a non-ASCII name containing `;` and `=`, a filename, a
+`Content-Type` line, and a content made of CR LF and dashes -/
+private def exSpec : PartSpec :=
+  { name := [252, 59, 61, 120],                                     -- "ü;=x"
+    filename := some [233, 46, 116, 120, 116],                      -- "é.txt"
+    extra := [([67,111,110,116,101,110,116,45,84,121,112,101], [116,101,120,116,47,112,108,97,105,110])],
+    content := [13, 10, 45, 45, 13, 10] }
+
+private theorem exSpec_ok : PartSpecOK bd exSpec := by
+  refine ⟨⟨⟨by unfold QuoteFree; decide, by decide⟩, by unfold Scalar; decide⟩, ?_, ?_, by decide,
+    free_of_findSub (by decide)⟩
+  · intro f hf
+    have : f = [233, 46, 116, 120, 116] := by simp [exSpec] at hf; exact hf.symm
+    subst this
+    exact ⟨⟨by unfold QuoteFree; decide, by decide⟩, by unfold Scalar; decide⟩
+  · intro kv hkv
+    have : kv = ([67,111,110,116,101,110,116,45,84,121,112,101], [116,101,120,116,47,112,108,97,105,110]) := by
+      simpa [exSpec] using hkv
+    subst this
+    exact ⟨⟨⟨67, [111,110,116,101,110,116,45,84,121,112,101,58,32,116,101,120,116,47,112,108,97,105], 110, by decide,
+        by decide, by decide⟩, by decide, by unfold Scalar; decide⟩, by decide, by decide, by decide⟩
+
+/-- C01.6 applies to it, whatever the chunking (here: every byte its own chunk) -/
+example : parseStream bd {} .utf8
+    ((encode bd [] [renderedPartU exSpec.name exSpec.filename exSpec.extra exSpec.content] [13, 10]).map fun x => [x]) =
+    expected {} .utf8 [renderedPartU exSpec.name exSpec.filename exSpec.extra exSpec.content] :=
+  rendered_form_exact bd [] [13, 10] [exSpec] {} (by unfold NoLB; decide) (free_of_findSub (by decide))
+    (fun p hp => by simp at hp; subst hp; exact exSpec_ok) _ (flatten_map_singleton _)
 
 end Baize.Multipart
